@@ -22,6 +22,7 @@ import (
 	"reflect"
 	"sort"
 	"strings"
+	"time"
 
 	"github.com/compose-spec/compose-go/v2/paths"
 
@@ -29,6 +30,9 @@ import (
 )
 
 // ---------------------------------------------------------------- environment of the child
+
+// the machine is shared with other checks: a case that has not answered after a minute is a hang, not before
+const c12Timeout = 60 * time.Second
 
 var c12FsChecked = false
 var c12FsCollision = ""
@@ -363,6 +367,7 @@ func patOf(p []string) string {
 
 func init() {
 	core.Register("c12.join", &core.CheckDef{
+		Timeout: c12Timeout,
 		Real: func(raw json.RawMessage) any {
 			var a joinArgs
 			json.Unmarshal(raw, &a)
@@ -371,6 +376,7 @@ func init() {
 		DriverOp: "c12.join",
 	})
 	core.Register("c12.winabs", &core.CheckDef{
+		Timeout: c12Timeout,
 		Real: func(raw json.RawMessage) any {
 			var a pArgs
 			json.Unmarshal(raw, &a)
@@ -409,6 +415,7 @@ func init() {
 		},
 	})
 	core.Register("c12.remote", &core.CheckDef{
+		Timeout: c12Timeout,
 		Real: func(raw json.RawMessage) any {
 			var a pArgs
 			json.Unmarshal(raw, &a)
@@ -417,10 +424,11 @@ func init() {
 		},
 		DriverOp: "c12.remote",
 	})
-	core.Register("c12.resolve", &core.CheckDef{Real: realResolve, DriverOp: "c12.resolve", Judge: judgeResolve})
+	core.Register("c12.resolve", &core.CheckDef{Timeout: c12Timeout, Real: realResolve, DriverOp: "c12.resolve", Judge: judgeResolve})
 
 	// ---- oracle: one attribute, one written value, against the specification
 	core.Register("c12.attr", &core.CheckDef{
+		Timeout: c12Timeout,
 		Real: func(raw json.RawMessage) any {
 			var a attrArgs
 			json.Unmarshal(raw, &a)
@@ -471,6 +479,7 @@ func init() {
 
 	// ---- oracle: frame — only path attributes are ever rewritten
 	core.Register("c12.frame", &core.CheckDef{
+		Timeout: c12Timeout,
 		Real: func(raw json.RawMessage) any {
 			var a resolveArgs
 			json.Unmarshal(raw, &a)
@@ -528,6 +537,7 @@ func init() {
 
 	// ---- oracle: idempotence (absolute base)
 	core.Register("c12.idem", &core.CheckDef{
+		Timeout: c12Timeout,
 		Real: func(raw json.RawMessage) any {
 			var a resolveArgs
 			json.Unmarshal(raw, &a)
@@ -577,6 +587,7 @@ func init() {
 
 	// ---- oracle: two-stage = one-stage
 	core.Register("c12.compose", &core.CheckDef{
+		Timeout: c12Timeout,
 		Real: func(raw json.RawMessage) any {
 			var a composeArgs
 			json.Unmarshal(raw, &a)
@@ -641,6 +652,7 @@ func init() {
 
 	// ---- oracle: idempotence of develop.watch paths through real symbolic links (file system = real, in a temp dir)
 	core.Register("c12.symlink", &core.CheckDef{
+		Timeout: c12Timeout,
 		Real: func(raw json.RawMessage) any {
 			var a struct {
 				Nested bool `json:"nested"`
